@@ -182,6 +182,17 @@ def standard_plan(ctx, visitor, depths_quick=(8, 7, 6, 5, 5), depths_thorough=(1
     for N in (((1, 2, 3) if th else (1, 2)) if extras else ()):
         tasks += list(tree_tasks(dict(N=N, r=2.0, box="Z"), "A013", depths[N - 1] - 1, visitor, split=2))
         tasks += list(tree_tasks(dict(N=N, r=3.0, box="Z", spell="intlist"), "Am201", depths[N - 1] - 2, visitor, split=2, batch=2))
+    # calls made before the first successful iteration in an order no tutorial uses (results asked for, a refinement
+    # requested, the very first evaluation failing, a zero-size call), and a one-off objective failure at the k-th evaluation
+    # inside a batched call (the call ends early - a moment of its own - and the search simply goes on)
+    for N in (((1, 2, 3) if th else (1, 2)) if extras else ()):
+        d = depths[N - 1] - 2
+        for pre in (["fail1"], ["refine0"], ["results0", "zero0"], ["results0", "refine0", "fail1", "fail1"]):
+            tasks += list(tree_tasks(dict(N=N, r=2.0, box=boxes[0], prelude=pre), "A013", d, visitor, split=2))
+        tasks += list(tree_tasks(dict(N=N, r=3.0, box="B1", prelude=["fail1", "refine0"]), "Am201", d, visitor, split=2, batch=3))
+        for fa in (2, 3, 4, 5):
+            for bsz in (3, d):
+                tasks += list(tree_tasks(dict(N=N, r=2.0, box="B1", fail_at=fa), "Am201", d, visitor, split=2, batch=bsz))
     # the objective value left as a 0-d array in the holder; a read-only listener that walks the search information partly
     for N in (((1, 2, 3) if th else (1, 2)) if extras else ()):
         tasks += list(tree_tasks(dict(N=N, r=2.0, box=boxes[0], holder="zerod"), "A013", depths[N - 1] - 1, visitor, split=2))
